@@ -17,6 +17,8 @@ Check(x) ==
     ELSE IF \E i \in 1..Len(x.nodes) : x.nodes[i].info_ok = FALSE THEN "Blob.InfoChanged"
     ELSE IF \E i \in 1..Len(x.nodes) : x.nodes[i].looked /\ x.nodes[i].failed THEN "Blob.CannotBeUnpacked"
     ELSE IF \E i \in 1..Len(x.nodes) : x.nodes[i].looked /\ x.nodes[i].args # Expected(x) THEN "Blob.ArgumentsDiffer"
+    \* the info travels as an annotation of the blob call; an ordinary call made afterwards does not carry it
+    ELSE IF ~x.later_clean THEN "Blob.InfoLeftInLaterRequests"
     ELSE ""
 Step == l = 1 /\ l' = 2 /\ t' = t /\ bad' = Check(X) /\ UNCHANGED <<writer, args, info, hops, seen>>
 Spec == Init /\ [][Step]_vars
